@@ -113,6 +113,11 @@ class ExprMixin:
                     self.hstore(st, r, str(i), self.coerce(st, it, cls.fields[str(i)]))
                 return r
             if cls.kind == 'list':
+                if 'cat' in cls.fields:
+                    cat = z3.StringVal('')
+                    for it in lit.items:
+                        cat = z3.Concat(cat, self.coerce(st, it, cls.e))
+                    self.hstore(st, r, 'cat', cat)
                 arr = z3.K(z3.IntSort(), self.default_of(cls.e))
                 for i, it in enumerate(lit.items):
                     arr = z3.Store(arr, i, self.coerce(st, it, cls.e))
@@ -247,6 +252,13 @@ class ExprMixin:
         if isinstance(v, bytes):
             return [(SStr(v.decode('latin-1')), st)]
         raise Unsupported('constant %r' % (v,))
+
+    def ev_JoinedStr(self, node, st):
+        # f-string: only used for messages; an unconstrained string (sub-expressions are still evaluated for their effects)
+        for v in node.values:
+            if isinstance(v, ast.FormattedValue):
+                self.ev1(v.value, st)
+        return [(SStr(self.fresh(st, 'fstr', z3.StringSort())), st)]
 
     def ev_Name(self, node, st):
         n = node.id
@@ -431,6 +443,19 @@ class ExprMixin:
             self.hstore(s2, r, 'elems', self.hload(s2, obj, 'elems'))
             self.hstore(s2, r, 'len', self.hload(s2, obj, 'len'))
             return [(r, s2)]
+        if isinstance(obj, SStr) and sl.step is None:
+            n = z3.Length(obj.t)
+
+            def norm(b, dflt):
+                if b is None:
+                    return dflt
+                v = self.ev1(b, st)
+                if not isinstance(v, SInt):
+                    raise Unsupported('string slice bound %r' % (v,))
+                # Python clamping: negative bounds count from the end, everything is clamped into [0, n]
+                return z3.If(v.t < 0, z3.If(v.t + n < 0, 0, v.t + n), z3.If(v.t > n, n, v.t))
+            a, b = norm(sl.lower, z3.IntVal(0)), norm(sl.upper, n)
+            return [(SStr(z3.SubString(obj.t, a, z3.If(b - a < 0, 0, b - a))), st)]
         if isinstance(obj, SVal):      # a slice of an opaque sequence is an opaque sequence
             return [(SVal(self.fresh(st, 'opaque_slice', Val)), st)]
         raise Unsupported('slice expression at line %d' % node.lineno)
@@ -614,6 +639,12 @@ class ExprMixin:
             return a.t == b.t
         if isinstance(a, SStr) and isinstance(b, (SInt, SReal)) or isinstance(b, SStr) and isinstance(a, (SInt, SReal)):
             return z3.BoolVal(False)
+        if identity:
+            # a number or string is never one of the module's private sentinel objects
+            sentinels = [v.t for v in self.consts.values() if isinstance(v, SVal)]
+            for x, y in ((a, b), (b, a)):
+                if isinstance(x, SVal) and isinstance(y, (SInt, SReal, SStr, SBool)) and any(z3.eq(x.t, t) for t in sentinels):
+                    return z3.BoolVal(False)
         if isinstance(a, SVal) and isinstance(b, SInt):
             return a.t == self.int2val(b.t)
         if isinstance(b, SVal) and isinstance(a, SInt):
